@@ -183,3 +183,137 @@ Proof. split; reflexivity. Qed.
 Example C17_nonvacuous_butter_args :
   butter_args CArray [Some (1 / 2); Some 10] (1 / 100) = inr (Band, [2 * (1 / 2) * (1 / 100); 2 * 10 * (1 / 100)]).
 Proof. apply (P_C17.butter_args_spec CArray [Some (1 / 2); Some 10] (1 / 100)). lra. Qed.
+
+(** ** Source-text tie (translator/py2coq_c17.py -> gen/Gen_c17.v, proofs in P_gen_c17)
+
+    Every run re-translates eqsig/single.py (class Signal: butter_pass, add_constant, add_series, add_signal,
+    running_average) into Gallina by symbolic execution of the method bodies; the generated definitions are the ones used
+    below, so a change of an operand, index, sign, literal, comparison, keyword default or exception message in those
+    methods changes [gen_*] and breaks one of these theorems (a statement outside the accepted shapes aborts the translator).
+    Inputs of the generated functions: a = self.values, dt = self.dt; cls / cut = the class and the content of cut_off (a [None]
+    entry is Python None); kw_* = the keyword if given; remove_gibbs = None | Some string; FF order btype wn v stands for
+    `b, a = butter(order, wn, btype=btype); filtfilt(b, a, v)`; other = Some (dt, values) of a Signal | None for any other object.
+    Results are [PyOk v] (v handed to reset_values / stored into _values) or the exception raised (class and message).
+    NOT covered by this tie (left to the correspondence): SciPy's butter / filtfilt themselves, binary64 rounding, np.mean of an
+    empty slice (nan + warning; 0/0 in the model), int(np.ceil(np.log2(n))) read as Z.log2_up n (exact for 1 <= n < 2^48),
+    the object-level steps (the values / dt / npts properties and reset_values are checked structurally to be the plain
+    accessors; AccSignal's overrides and clear_cache are not translated), remove_poly (np.polyfit loop: not translated). *)
+From Coq Require Import ZArith String List.
+From EQ Require Import gen.Gen_c17 proofs.P_gen_c17.
+
+(** the readings of the Python-level arguments used below: [cls_of] the class of cut_off, [gibbs_of_rg] the remove_gibbs
+    keyword (anything but None / 'start' / 'end' is the centred layout), [btype_of_string] scipy's btype string *)
+Theorem C17_source_argument_readings :
+  cls_of CList = PList /\ cls_of CTuple = PTuple /\ cls_of CArray = PNdarray /\ cls_of COther = POther /\
+  gibbs_of_rg None = GNone /\ gibbs_of_rg (Some "start"%string) = GStart /\ gibbs_of_rg (Some "end"%string) = GEnd /\
+  (forall s, s <> "start"%string -> s <> "end"%string -> gibbs_of_rg (Some s) = GMid) /\
+  btype_of_string "band" = Band /\ btype_of_string "low" = Low /\ btype_of_string "high" = High.
+Proof. exact P_gen_c17.readings_spec. Qed.
+
+(** butter_pass: the whole method body (validation and its messages, band/low/high selection, nyq and wp, the Gibbs layout
+    per mode, start/end means over gibbs_range samples, the padded buffer, the call of the filter and the slice taken
+    afterwards) is the model's [butter_pass], for every real input, every order, gibbs_extra, remove_gibbs string and
+    gibbs_range >= 1 (at gibbs_range = 0 Python's [-0:] is the whole record, which the model's [lastn] does not follow; the
+    model documents k >= 1).  cut_off = (None, None) is the next theorem. *)
+Theorem C17_butter_pass_is_source : forall FF cont (cut : list (option R)) order rg extra grange (s : @signal R),
+  cut <> [None; None] -> (rg <> None -> (1 <= grange)%nat) ->
+  gen_butter_pass (fun o bt => FF (Z.to_nat o) (btype_of_string bt)) (cls_of cont) cut
+    (Some (Z.of_nat order)) rg (Some (Z.of_nat extra)) (Some (Z.of_nat grange)) (s_dt s) (s_vals s)
+  = match butter_pass FF order cont cut (gibbs_of_rg rg) extra grange s with
+    | inr s' => PyOk (s_vals s')
+    | inl ErrNotSeq => PyValueError "cut_off must be list, tuple or array."
+    | inl ErrLen2 => PyValueError "cut_off must be length 2."
+    end.
+Proof. exact P_gen_c17.gen_butter_pass_eq_R. Qed.
+(** the same for every number type in which v * 1 = v (the source multiplies the start mean into np.ones) *)
+Theorem C17_butter_pass_is_source_generic : forall (T : Type) (ops : NumOps T), (forall v : T, nmul v n1 = v) ->
+  forall FF cont (cut : list (option T)) order rg extra grange (s : @signal T),
+  cut <> [None; None] -> (rg <> None -> (1 <= grange)%nat) ->
+  gen_butter_pass (fun o bt => FF (Z.to_nat o) (btype_of_string bt)) (cls_of cont) cut
+    (Some (Z.of_nat order)) rg (Some (Z.of_nat extra)) (Some (Z.of_nat grange)) (s_dt s) (s_vals s)
+  = match butter_pass FF order cont cut (gibbs_of_rg rg) extra grange s with
+    | inr s' => PyOk (s_vals s')
+    | inl ErrNotSeq => PyValueError "cut_off must be list, tuple or array."
+    | inl ErrLen2 => PyValueError "cut_off must be length 2."
+    end.
+Proof. exact (@P_gen_c17.gen_butter_pass_eq). Qed.
+(** cut_off = (None, None) in a list / tuple / array: the source raises TypeError (None / nyq); [butter_args] returns a
+    placeholder there, which is why C17_btype_and_cutoffs says True for that shape *)
+Theorem C17_butter_pass_none_none_is_source : forall FF cont order rg extra grange (s : @signal R),
+  cont <> COther -> (rg <> None -> (1 <= grange)%nat) ->
+  gen_butter_pass (fun o bt => FF (Z.to_nat o) (btype_of_string bt)) (cls_of cont) [None; None]
+    (Some (Z.of_nat order)) rg (Some (Z.of_nat extra)) (Some (Z.of_nat grange)) (s_dt s) (s_vals s) = PyTypeError.
+Proof. exact P_gen_c17.gen_butter_pass_none_none_R. Qed.
+(** keyword and signature defaults: filter_order=4, gibbs_extra=1, gibbs_range=50 (remove_gibbs=None is the [None] input),
+    cut_off=(0.1, 15), width=1 *)
+Theorem C17_defaults_are_source :
+  (forall (FFz : Z -> string -> list R -> list R -> list R) cls cut rg dt (x : list R),
+     gen_butter_pass FFz cls cut None rg None None dt x
+     = gen_butter_pass FFz cls cut (Some (Z.of_nat 4)) rg (Some (Z.of_nat 1)) (Some (Z.of_nat 50)) dt x) /\
+  gen_butter_pass_default_cut_off_class = PTuple /\ @gen_butter_pass_default_cut_off R _ = [Some 0.1; Some 15] /\
+  gen_running_average_default_width = 1%Z.
+Proof. split; [exact (@P_gen_c17.gen_butter_pass_defaults R _) | exact P_gen_c17.gen_c17_defaults_R]. Qed.
+
+(** add_constant / add_series / add_signal: element-wise sums, the rejection conditions, their order and their messages; for
+    every number type (no arithmetic law is used) *)
+Theorem C17_add_constant_is_source : forall (T : Type) (ops : NumOps T) c (s : @signal T),
+  gen_add_constant c (s_vals s) = PyOk (s_vals (add_constant c s)).
+Proof. exact (@P_gen_c17.gen_add_constant_eq). Qed.
+Theorem C17_add_series_is_source : forall (T : Type) (ops : NumOps T) series (s : @signal T),
+  gen_add_series series (s_vals s)
+  = match add_series series s with
+    | inr s' => PyOk (s_vals s')
+    | inl ErrSeriesLen => PySignalProcessingError "new series has different length to Signal"
+    | inl ErrDt => PySignalProcessingError "New signal has different time step"
+    | inl ErrNotSignal => PySignalProcessingError "New signal is not a Signal object"
+    end.
+Proof. exact (@P_gen_c17.gen_add_series_eq). Qed.
+Theorem C17_add_signal_is_source : forall (T : Type) (ops : NumOps T) (other : option (@signal T)) (s : @signal T),
+  gen_add_signal (match other with Some o => Some (s_dt o, s_vals o) | None => None end) (s_dt s) (s_vals s)
+  = match add_signal other s with
+    | inr s' => PyOk (s_vals s')
+    | inl ErrSeriesLen => PySignalProcessingError "new series has different length to Signal"
+    | inl ErrDt => PySignalProcessingError "New signal has different time step"
+    | inl ErrNotSignal => PySignalProcessingError "New signal is not a Signal object"
+    end.
+Proof. exact (@P_gen_c17.gen_add_signal_eq). Qed.
+
+(** running_average: the three-branch loop body (its comparisons i < width / 2, i > len - width / 2 over exact quotients,
+    int(width / 2), the three slices with Python's index normalisation) is [running_average_at] at every index, and the
+    loop fills the output with it; for every number type *)
+Theorem C17_running_average_body_is_source : forall (T : Type) (ops : NumOps T) (w : nat) (x : list T) (i : nat),
+  gen_running_average_at (Z.of_nat w) x (Z.of_nat i) = running_average_at w x i.
+Proof. exact (@P_gen_c17.gen_running_average_at_eq). Qed.
+Theorem C17_running_average_is_source : forall (T : Type) (ops : NumOps T) (w : nat) (x : list T),
+  gen_running_average (Z.of_nat w) x = PyOk (running_average w x).
+Proof. exact (@P_gen_c17.gen_running_average_eq). Qed.
+Theorem C17_running_average_loop_is_source : forall (T : Type) (ops : NumOps T) (w : nat) (x : list T),
+  exists out, gen_running_average (Z.of_nat w) x = PyOk out /\ length out = length x /\
+    forall i d, (i < length x)%nat -> nth i out d = gen_running_average_at (Z.of_nat w) x (Z.of_nat i).
+Proof. exact (@P_gen_c17.gen_running_average_loop). Qed.
+
+(** what the source returns, at R, through the theorems above: the window mean of the original samples at every index;
+    a record of unchanged length for any length-preserving filter *)
+Theorem C17_source_running_average_window : forall (w : nat) (x : list R),
+  exists out, gen_running_average (Z.of_nat w) x = PyOk out /\ length out = length x /\
+    forall i, (i < length x)%nat -> nth i out 0 = window_mean w x i.
+Proof. exact P_gen_c17.source_running_average_window. Qed.
+Theorem C17_source_butter_pass_length : forall FF cont (cut : list (option R)) order rg extra grange (s : @signal R) out,
+  FF_length FF -> cut <> [None; None] -> (rg <> None -> (1 <= grange)%nat) ->
+  gen_butter_pass (fun o bt => FF (Z.to_nat o) (btype_of_string bt)) (cls_of cont) cut
+    (Some (Z.of_nat order)) rg (Some (Z.of_nat extra)) (Some (Z.of_nat grange)) (s_dt s) (s_vals s) = PyOk out ->
+  length out = length (s_vals s).
+Proof. exact P_gen_c17.source_butter_pass_length. Qed.
+(** the guard gibbs_range >= 1 of C17_butter_pass_is_source cannot be dropped: v[-0:] is the whole array *)
+Theorem C17_source_last_slice_guard : py_slice (Some (- Z.of_nat 0)%Z) None [true] <> lastn 0 [true].
+Proof. exact P_gen_c17.py_slice_last_0_differs. Qed.
+
+Example C17_nonvacuous_source :
+  gen_running_average 3%Z [0; 1; 4; 9] = PyOk [1 / 2; 5 / 3; 14 / 3; 13 / 2] /\
+  gen_add_signal (Some (1 / 100, [3; 4])) (1 / 100) [1; 2] = PyOk [1 + 3; 2 + 4] /\
+  gen_add_series [3] [1; 2] = (PySignalProcessingError "new series has different length to Signal" : pyres (list R)) /\
+  gen_butter_pass (fun _ _ _ v => v) POther [Some (1 / 2); Some 10] None None None None (1 / 100) [1; 2; 3]
+    = (PyValueError "cut_off must be list, tuple or array." : pyres (list R)) /\
+  gen_butter_pass (fun (o : Z) (bt : string) (wn v : list R) => v) PTuple [Some (1 / 2); Some 10] None (Some "mid"%string) None None
+    (1 / 100) [1; 2; 3] = PyOk [1; 2; 3].
+Proof. exact P_gen_c17.source_nonvacuous. Qed.
